@@ -9,7 +9,7 @@ from kfv.rules.c10 import rule_num_prescale
 
 TECHNIQUE = ('polynomial normal forms of the running-average / accumulation updates by symbolic evaluation per branch valuation; abstract '
              'interpretation of get_cov / bias column / conv normalisation over named index spaces with size coefficients and units; '
-             'guard analysis of the hooks (training mode, factor interval)')
+             'guard analysis of the hooks (training mode, factor interval); alias rule on factor slots; configuration-forwarding rule for the layer options')
 EXPLANATION = (
     'update_a_factor / update_g_factor are evaluated symbolically for every valuation of (batch present, count > 1, factor present): the '
     'stored value must be alpha*old + (1-alpha)*new as a polynomial, the first old value the identity, the batch divided by the count '
@@ -17,7 +17,7 @@ EXPLANATION = (
     'get_cov types to a symmetric Gram matrix a^T a over the feature space with coefficient 1/rows; the bias column is constant 1 and '
     'last; convolution moments carry 1/(OH*OW) per factor taken from the right axes; the loss scale is divided out once; inputs are cast '
     'to the factor dtype first; hook effects are dominated by the training-mode test and the factor gate; reductions are averaged over '
-    'the group communicated on.  Positive semi-definiteness beyond the Gram form and floating-point symmetry are not decided.')
+    'the group communicated on.  Positive semi-definiteness beyond the Gram form and floating-point symmetry are not decided. Factor slots are rebound, never mutated in place; every base-layer option (factor_dtype, grad_scaler, ...) reaches every layer type unconditionally (CFG-FWD).')
 
 NOT_DECIDED = 'semi-definiteness beyond the Gram form; floating-point symmetry; the cross-rank mean as a value'
 
